@@ -55,15 +55,16 @@ def integrate (b : Basis K) (tol t0 t1 : K) : PyM (Array K) :=
     -- N = N[1:]
     let N := N.extract 1 N.size
     if b.periodic > -1 then
-      -- for j in range(self.periodic + 1): N[j] += N[-self.periodic - 1 + j]
-      -- N = N[:-self.periodic-1]
-      -- PROPERTY-FOLLOWING: entry `c` is the sum of ALL images `i ≡ c (mod n)`, `n = num_functions`.
-      -- The source folds the last `k+1` entries onto the first ones ONCE, which is the same thing
-      -- exactly when `k + 1 ≤ n`; for smaller periodic bases the source loses images (finding
-      -- `integrate-periodic-collapse-single-fold`).
+      -- n = self.num_functions(); M = [0.0] * n
+      -- for j in range(len(N)): M[j % n] += N[j]     (sum of ALL wrapped images; N = M)
+      -- (literal mirror of the source since the fix of finding
+      --  `integrate-periodic-collapse-single-fold`; the pinned source folded only once, which is
+      --  the same exactly when `k + 1 ≤ n`.)
       let k1 := (b.periodic + 1).toNat
-      if N.size < k1 then .error .index else
+      if N.size = 0 then .ok #[] else
+      if N.size < k1 then .error .index else        -- n < 0: `[0.0]*n` is empty, `M[j % n]` fails
       let n := N.size - k1
+      if n = 0 then .error .zeroDiv else            -- `j % 0`
       .ok (Array.ofFn (n := n) (fun c =>
         (List.range N.size).foldl (fun acc i => if i % n = c.val then acc + N.getD i 0 else acc) 0))
     else .ok N
